@@ -123,7 +123,13 @@ def run(ctx):
                 'the C20 operator catalogue under sampled schedules. Each per-next result is compared with a private cursor over '
                 'a solo pass of an identical fresh view. Non-trivial: schedules in which both iterators advance.')
     ctx.assumptions += ['CPython generator semantics; threads are out of scope (interleaved next() calls only)']
-    ctx.prove(['PetlProofs.Props.C01'], REQUIRED)
+    from translators import fingerprints as _fp
+    try:
+        _fpi = _fp.generate()
+        ctx.bridge('translator: fingerprints of the petl functions the hand-written models mirror (%d bodies)' % _fpi['names'], True)
+    except Exception as e:   # noqa
+        ctx.bridge('translator: source fingerprints extracted', False, repr(e))
+    ctx.prove(['PetlProofs.Props.C01', 'PetlProofs.Snapshot.C01'], REQUIRED + ['Petl.Snapshot.C01_sources_as_validated'])
     rng = ctx.rng
     tmpd = tempfile.mkdtemp(prefix='petl_c01_')
     maxr = 3 if ctx.thorough() else 2
